@@ -106,6 +106,7 @@ type Args struct {
 
 // ParseArgs reads -tier/-seed/-replay and VERIF_SEED / VERIF_TIER.
 func ParseArgs() *Args {
+	raiseDescriptorLimit()
 	a := &Args{Start: time.Now(), Extra: map[string]string{}}
 	tier := flag.String("tier", "", "quick|thorough")
 	seed := flag.Int64("seed", -1, "random seed (default VERIF_SEED or 1)")
@@ -146,4 +147,14 @@ func Pick[T any](a *Args, q, t T) T {
 		return q
 	}
 	return t
+}
+
+// raiseDescriptorLimit lifts the soft limit of open files to the hard limit: the cluster stages keep many
+// sockets and files open at once (best effort; a failure is ignored).
+func raiseDescriptorLimit() {
+	var l syscall.Rlimit
+	if err := syscall.Getrlimit(syscall.RLIMIT_NOFILE, &l); err == nil && l.Cur < l.Max {
+		l.Cur = l.Max
+		_ = syscall.Setrlimit(syscall.RLIMIT_NOFILE, &l)
+	}
 }
